@@ -106,6 +106,8 @@ class Log:
 
     def ev(self, *rec):
         self.n += 1
+        if LineBudget.active is not None:
+            LineBudget.active.mark()
         self.h.update(repr(rec).encode())
         self.h.update(b'\n')
         if self.keep:
@@ -166,12 +168,26 @@ def traced_files():
 class LineBudget:
     """Counts executed lines of engine code and generated code (file names starting
     with '<sim'); raises BudgetExceeded after `budget` lines.  Deterministic substitute
-    for a wall-clock hang detector."""
+    for a wall-clock hang detector.  With per_event=True the budget applies to the lines
+    executed since the last event-log entry ("no progress within N simulated steps"), not to
+    the whole run, whose legitimate length varies by orders of magnitude."""
 
-    def __init__(self, budget, files=None):
+    active = None
+
+    def __init__(self, budget, files=None, per_event=False):
         self.budget = budget
         self.count = 0
+        self.base = 0
+        self.per_event = per_event
+        self.max_between_events = 0
         self.files = files if files is not None else traced_files()
+
+    def mark(self):
+        if self.per_event:
+            d = self.count - self.base
+            if d > self.max_between_events:
+                self.max_between_events = d
+            self.base = self.count
 
     def _global(self, frame, ev, arg):
         fn = frame.f_code.co_filename
@@ -182,17 +198,21 @@ class LineBudget:
     def _local(self, frame, ev, arg):
         if ev == 'line':
             self.count += 1
-            if self.count > self.budget:
+            if self.count - self.base > self.budget:
                 raise BudgetExceeded()
         return self._local
 
     def __enter__(self):
         self._old = sys.gettrace()
+        self._outer = LineBudget.active
+        if self.per_event:
+            LineBudget.active = self
         sys.settrace(self._global)
         return self
 
     def __exit__(self, *a):
         sys.settrace(self._old)
+        LineBudget.active = self._outer
         return False
 
 
@@ -341,8 +361,16 @@ class Aggregate:
                 'digests': self.digests, 'harness': self.harness, 'max_i': self.max_i}
 
 
-NO_PROGRESS_LINES = int(os.environ.get('YPSIM_NO_PROGRESS_LINES', '3000000'))
-FIRST_WALL_CAP_S = float(os.environ.get('YPSIM_FIRST_WALL_CAP_S', '6'))
+# "no progress": more than this many lines of engine / generated code executed between two entries of the event log
+# (legitimate maxima measured over thorough plans: < 1 M for every check)
+NO_PROGRESS_LINES = int(os.environ.get('YPSIM_NO_PROGRESS_LINES', '60000000'))
+FIRST_WALL_CAP_S = float(os.environ.get('YPSIM_FIRST_WALL_CAP_S', '15'))
+
+
+def progress():
+    """tells the line tracer (if one is active) that the run is making progress, without logging an event"""
+    if LineBudget.active is not None:
+        LineBudget.active.mark()
 
 
 def run_plan(mod, plan):
@@ -351,11 +379,12 @@ def run_plan(mod, plan):
     lb = plan.get('_line_budget')
     if not lb:
         return mod.execute(plan)
-    tracer = LineBudget(lb, mod.traced_files() if hasattr(mod, 'traced_files') else None)
+    tracer = LineBudget(lb, mod.traced_files() if hasattr(mod, 'traced_files') else None, per_event=True)
     try:
         with tracer:
             res = mod.execute(plan)
         res['lines'] = res.get('lines', 0) + tracer.count
+        res['max_lines_between_events'] = max(tracer.max_between_events, tracer.count - tracer.base)
         return res
     except BudgetExceeded:
         return {'violations': [{'class': 'no-progress', 'detail': {'line_budget': lb}}], 'digest': 'no-progress:%d' % lb,
@@ -399,7 +428,7 @@ def run_seed_forked(mod, seed, tier):
             sys.stderr.write('ypsim: run with seed %d was retried after: %s\n' % (seed, str(first)[-300:]))
     if 'harness_timeout' in res and not getattr(mod, 'NO_RERUN', False):
         extra = {'_line_budget': NO_PROGRESS_LINES}
-        res = run_forked(_exec_seed, (mod, seed, tier, extra), 120)
+        res = run_forked(_exec_seed, (mod, seed, tier, extra), 600)
         if res.get('violations'):
             res['schedule_extra'] = extra
     return crash_to_violation(mod, res)
@@ -495,7 +524,7 @@ def run_plan_forked(mod, plan, cap=None):
 
 
 def _violates(mod, plan, cls):
-    res = run_plan_forked(mod, plan, 120 if plan.get('_line_budget') else None)
+    res = run_plan_forked(mod, plan, 600 if plan.get('_line_budget') else None)
     for v in res.get('violations', ()):
         if v['class'] == cls:
             return v
@@ -610,7 +639,7 @@ def replay(mod, prop, path, verbose=False):
     if verbose:
         plan = dict(plan)
         plan['_keep'] = True
-    res = run_plan_forked(mod, plan, 120)
+    res = run_plan_forked(mod, plan, 600)
     if 'harness_error' in res or 'harness_timeout' in res:
         print('HARNESS-ERROR during replay: %s' % res.get('harness_error', 'timeout'))
         return EXIT_HARNESS
@@ -749,7 +778,7 @@ def process_violations(mod, prop, tier, agg, out):
                 out('HARNESS-ERROR nondeterministic: run %d (seed %d) reported %s but does not repeat' % (i, seed, cls))
                 return EXIT_HARNESS, unlisted, known
             small = shrink(mod, plan, cls, shrink_box, v0)
-            res = run_plan_forked(mod, small, 120)
+            res = run_plan_forked(mod, small, 600)
             vs = [x for x in res.get('violations', ()) if x['class'] == cls]
             if not vs:
                 out('HARNESS-ERROR nondeterministic: shrunk plan of run %d does not repeat %s' % (i, cls))
